@@ -375,6 +375,10 @@ func limitSpecs() []string {
 	add("ternary", 100, 1000, 10000)
 	add("openparens", 100, 1000, 10000)
 	add("openbraces", 100, 1000, 10000)
+	// code longer than 64 KiB in one function / in main: jump operands beyond 16 bits, with dead code to remove
+	add("longif", 7000, 9000)
+	add("longloop", 7000, 9000)
+	add("longmain", 9000)
 	add("longline", 100000)
 	add("manylines", 100000)
 	return out
@@ -514,6 +518,18 @@ func genLimit(spec string) ([]byte, error) {
 		sb.WriteString("x := \"")
 		rep("a", n)
 		sb.WriteString("\" + )")
+	case "longif":
+		sb.WriteString("f := func(c) {\nx := 0\nif c {\n")
+		rep("x = x + 1\n", n)
+		sb.WriteString("return x\nx = 0\n} else {\nx = -5\n}\nreturn c || x\n}\nf(true)\n")
+	case "longloop":
+		sb.WriteString("f := func(c) {\nx := 0\n")
+		rep("x = x + 1\n", n)
+		sb.WriteString("for i := 0; i < 3; i++ {\nif i == 1 { continue }\nif c && i == 2 { break }\nx += 100\n}\nreturn x\n}\nf(true)\n")
+	case "longmain":
+		sb.WriteString("x := 0\nc := true\nif c {\n")
+		rep("x = x + 1\n", n)
+		sb.WriteString("}\nfor i := 0; i < 3; i++ {\nif i == 1 { continue }\nx += 100\n}\n")
 	case "manylines":
 		rep("\n", n)
 		sb.WriteString("x := )")
